@@ -460,3 +460,11 @@ def markers_eq(a, b):
     if a is None or b is None:
         return a is b
     return [repr(x) for x in a] == [repr(x) for x in b]
+
+
+def dict_eq(a, b):
+    return dict(a or {}) == dict(b or {}) and list(a or {}) == list(b or {})
+
+
+def forall_keys(d, f):
+    return all(f(k) for k in (d or {}))
